@@ -423,16 +423,31 @@ def prop_peak_field(c: dict, rng: random.Random, known_lines: list) -> list[dict
             kc = k_of(sc.make_field(c, cc * data), **kw)
             if same(kc, k0, bin_):
                 continue
-            fails.append({"what": f"structure_factor_maximum ({label} smoothing) changes when the field is multiplied by a "
-                                  "constant", "method": PEAK, "smoothing": label, "input": sc.canon(c), "factor": cc,
-                          "got_bins": sc.json_safe(kc / bin_), "want_bins": sc.json_safe(k0 / bin_)})
+            # With the default width (not tied to the Fourier bin) the smoothed curve can be rough; the minimiser's path
+            # among its local maxima then depends on last-bit changes of sf.  Covered only if known_findings.json lists
+            # this failure kind for the default smoothing; explicit unit-consistent widths are always violations.
+            ent = sc.known_entry("C17", "get_length_scale", PEAK, "not invariant under field scaling",
+                                 smoothing="default") if label == "default" else None
+            if ent is not None:
+                known_lines.append(f"{c['kind']} field on {c['shape']} cells, spacing {c['h']}, multiplied by {cc:g} -> "
+                                   f"wave number {kc / bin_:.3f} bins instead of {k0 / bin_:.3f}")
+            else:
+                fails.append({"what": f"structure_factor_maximum ({label} smoothing) changes when the field is multiplied "
+                                      "by a constant", "method": PEAK, "smoothing": label, "input": sc.canon(c),
+                              "factor": cc, "got_bins": sc.json_safe(kc / bin_), "want_bins": sc.json_safe(k0 / bin_)})
             break
         sh = [rng.randrange(0, n) for n in data.shape]
         kr = k_of(sc.make_field(c, np.roll(data, sh, axis=tuple(range(data.ndim)))), **kw)
         if not same(kr, k0, bin_):
-            fails.append({"what": f"structure_factor_maximum ({label} smoothing) changes under a periodic translation",
-                          "method": PEAK, "smoothing": label, "input": sc.canon(c), "shift": sh,
-                          "got_bins": sc.json_safe(kr / bin_), "want_bins": sc.json_safe(k0 / bin_)})
+            ent = sc.known_entry("C17", "get_length_scale", PEAK, "not invariant under translation",
+                                 smoothing="default") if label == "default" else None
+            if ent is not None:
+                known_lines.append(f"{c['kind']} field on {c['shape']} cells, spacing {c['h']}, rolled by {sh} -> "
+                                   f"wave number {kr / bin_:.3f} bins instead of {k0 / bin_:.3f}")
+            else:
+                fails.append({"what": f"structure_factor_maximum ({label} smoothing) changes under a periodic translation",
+                              "method": PEAK, "smoothing": label, "input": sc.canon(c), "shift": sh,
+                              "got_bins": sc.json_safe(kr / bin_), "want_bins": sc.json_safe(k0 / bin_)})
     return fails
 
 
